@@ -48,6 +48,7 @@ func c13Case(c *lib.Ctx, idx uint64) {
 		UndefinedLocal: 15,
 		RepeatPrev:     8,
 		DevDescribe:    30,
+		ReservedBits:   4,
 		NoTimeZero:     true,
 		ZeroFieldDefs:  3,
 		RedefSimilar:   30,
